@@ -15,7 +15,10 @@ require (
 	github.com/go-latex/latex v0.0.0-20210823091927-c0d11ff05a81 // indirect
 	github.com/go-pdf/fpdf v0.6.0 // indirect
 	github.com/golang/freetype v0.0.0-20170609003504-e2365dfdc4a0 // indirect
+	github.com/google/safehtml v0.0.2 // indirect
+	github.com/mattn/go-sqlite3 v1.14.14 // indirect
 	golang.org/x/image v0.26.0 // indirect
+	golang.org/x/net v0.39.0 // indirect
 	golang.org/x/text v0.24.0 // indirect
 	gonum.org/v1/plot v0.10.1 // indirect
 )
